@@ -115,6 +115,9 @@ func c12Explore(t *testing.T, c *vcore.Ctx) {
 
 // c12One runs one create (optionally with a fault) from the given pre-state and checks it.
 func c12One(t *testing.T, c *vcore.Ctx, b *world.Backend, snap *world.Snap, pre *world.View, cc *c12Case) []string {
+	// a panic in a goroutine of the repository's own ends the worker: the driver reports it for this case
+	c.Journal("C12/process-crashed-during-deployment", cc)
+	defer c.JournalDone()
 	b.Restore(snap)
 	var res wResult
 	capacity := map[string]int{}
